@@ -26,7 +26,7 @@ THEOREMS = ["SleapVerif.C01." + t for t in [
     "cm_antitone_dist_cross", "multi_argmax_nearest", "flatten_channel_index", "cm4_value",
     "multi_batch_independent", "multi_batch_value", "centroid_batch_independent", "cm_batch_independent",
     "multi_batch_asIs_single", "multi_batch_asIs_counterexample",
-    "passes_independent", "dp_passes_independent",
+    "passes_independent", "dp_passes_independent", "dp_stream_independent",
 ]]
 
 TOL = 2e-6          # float32 implementation vs float64 model: observed noise ≤ ~1.2e-7 (evidence: max_abs_diff)
@@ -144,11 +144,25 @@ def gen_case(rng, variant=None, pin=None, allow_decoy=True):
     if variant.startswith("dp_") and allow_decoy and rng.random() < 0.75:
         case["history"] = {"passes": rng.choice([2, 2, 3]), "interleave": rng.random() < 0.35}
     # DataPipes: sometimes a second, different example travels through the same pipe object
-    if variant.startswith("dp_") and allow_decoy and rng.random() < 0.35:
-        case["decoy"] = gen_case(rng, variant, allow_decoy=False)
-        case["decoy"]["sigma"], case["decoy"]["stride"] = sigma, stride
+    if variant.startswith("dp_") and allow_decoy and rng.random() < 0.6:
+        case["decoy"] = gen_case(rng, variant, pin={"stride": stride, "sigma": sigma}, allow_decoy=False)
         case["decoy_first"] = rng.random() < 0.6
     return case
+
+
+def swapped(case):
+    """The same two-example stream observed at the other example (every example of a DataPipe stream
+    is compared with the model's answer for that example alone; the two have independent sizes)."""
+    d = case.get("decoy")
+    if not d:
+        return None
+    import copy
+    c = copy.deepcopy(d)
+    c["decoy"] = {k: v for k, v in copy.deepcopy(case).items() if k not in ("decoy", "decoy_first", "history")}
+    c["decoy_first"] = not case.get("decoy_first")
+    if case.get("history"):
+        c["history"] = copy.deepcopy(case["history"])
+    return c
 
 
 def default_case(rng, variant):
@@ -672,6 +686,13 @@ def main(chk: Check):
          "history": {"passes": 2, "interleave": True}, "pts": [[[[3.0, 3.0]], [[8.0, 9.0]]]]},
         {"variant": "dp_cm_inst", "H": 8, "W": 8, "stride": 4, "sigma": 2.5,
          "history": {"passes": 2, "interleave": False}, "pts": [[[1.0, 6.0], [None, None]]]},
+        # long sides (more than 4096 cells along a full-resolution axis), a keypoint beyond x = 4096 / y = 4096
+        {"variant": "cm3", "H": 16, "W": 4608, "stride": 4, "sigma": 1.5, "pts": [[[4300.0, 8.0], [100.0, 4.0]]]},
+        {"variant": "cm3", "H": 5120, "W": 16, "stride": 2, "sigma": 2.5, "pts": [[[8.0, 4700.5], [4.0, 4095.0]]]},
+        {"variant": "multi", "H": 4, "W": 4400, "stride": 1, "sigma": 1.0, "n_nodes": 1, "num_instances": 2,
+         "pts": [[[[4250.0, 2.0]], [[4097.0, 1.0]]]]},
+        {"variant": "dp_cent", "H": 4500, "W": 8, "stride": 4, "sigma": 1.5, "num_instances": 1, "pts": [[[4.0, 4400.0]]],
+         "history": {"passes": 2, "interleave": False}},
         # large frame / large stride / far-away keypoint / small and large continuous sigma
         {"variant": "cm3", "H": 1024, "W": 768, "stride": 32, "sigma": 0.73, "pts": [[[511.5, 300.25], [-5000.0, 12.0]]]},
         {"variant": "cm3", "H": 64, "W": 64, "stride": 16, "sigma": 0.05, "pts": [[[16.0, 32.0], [17.0, 33.0]]]},
@@ -684,6 +705,7 @@ def main(chk: Check):
     for k in range(n_rand):
         cases.append(gen_case(rng, VARIANTS[k % len(VARIANTS)]))
 
+    cases += [c2 for c2 in (swapped(c) for c in list(cases)) if c2 is not None]
     lines = [model_lines(case)[0] for case in cases]
     replies = run_driver("C01.lean", lines)
 
